@@ -307,8 +307,55 @@ def legacy_type_pairs(ctx):
                 ctx.viol(f"type-spelling:{what}-differ:{b_.split()[0]}", f"type {a_!r} at {pos}: {str(outs[0])[:300]}; its other spelling {b_!r}: {str(outs[1])[:300]}", {"klass": "legacy-type", "a": a_, "b": b_, "pos": pos})
 
 
+def include_forms(ctx):
+    """Sections pulled in with 'include' rows through the builder API, the same section in one to three places (a group, a group inside a repeat):
+    every inclusion has its own nodes in its own place of the instance, and its own controls nested in the control of the section that includes it."""
+    from .. import apiseq, xf
+    for i in range(24):
+        if not ctx.mine(i):
+            continue
+        rng = ctx.rng("include", i)
+        try:
+            sv, info = apiseq.include_survey(rng)
+            p = xf.Parsed(sv.to_xml(validate=False, pretty_print=False))
+        except Exception as e:  # noqa: BLE001
+            ctx.viol(f"include:raised:{type(e).__name__}", f"{e}"[:300], {"klass": "include"})
+            continue
+        ctx.case(sig=f"include|{info['n_includes']}|{i}")
+        ctx.ctr("include_forms")
+        wit = {"klass": "include", "main_md": info["main_md"]}
+        byref = {}
+        for el in p.body.iter():
+            if isinstance(el.tag, str) and (el.get("ref") or el.get("nodeset")) and xf.local(el.tag) not in ("setvalue", "setgeopoint", "label", "hint", "value", "itemset"):
+                byref.setdefault(el.get("ref") or el.get("nodeset"), []).append(el)
+        for n in info["included_nodes"]:
+            parent = n.rsplit("/", 1)[0]
+            ctx.ctr("bodies_compared")
+            ctx.ctr("instances_compared")
+            if len(p.resolve(n)) < 1:
+                ctx.viol("include:instance:missing", f"{n} is not in the instance ({info['n_includes']} inclusions of one section)", wit)
+                continue
+            els = byref.get(n, [])
+            if len(els) != 1:
+                ctx.viol("include:body:control-count", f"{n}: {len(els)} controls ({info['n_includes']} inclusions of one section)", wit)
+                continue
+            anc = els[0].getparent()
+            while anc is not None and not (anc.get("ref") or anc.get("nodeset")):
+                anc = anc.getparent()
+            got = None if anc is None else (anc.get("ref") or anc.get("nodeset"))
+            if got != parent:
+                ctx.viol("include:body:control-nested-in-another-section", f"the control of {n} sits in the control of {got!r}, its section is {parent!r}", wit)
+        # instance order inside each inclusion: street, then town
+        for g in sorted({n.rsplit("/", 1)[0] for n in info["included_nodes"]}):
+            for node in p.resolve(g):
+                names = [xf.local(c.tag) for c in node if isinstance(c.tag, str)]
+                if names[-2:] != ["street", "town"] and names != ["street", "town"]:
+                    ctx.viol("include:instance:children", f"{g} has children {names}, the included section is street, town", wit)
+
+
 def run_shard(ctx):
     legacy_type_pairs(ctx)
+    include_forms(ctx)
     pl = plan(ctx.tier, ctx.seed)
     for i in range(pl["n"]):
         if not ctx.mine(i):
@@ -341,6 +388,9 @@ def replay(w):
     def chk(ctx, wit):
         if wit.get("klass") == "legacy-type":
             legacy_type_pairs(ctx)
+            return
+        if wit.get("klass") == "include":
+            include_forms(ctx)
             return
         check(ctx, common.form_from_witness(wit), "replay")
     return common.replay_with(PROP, w, chk)
